@@ -2283,14 +2283,18 @@ class DiskObjectStore(PackBasedObjectStore):
             ):
                 pass
         except BaseException:
-            final_pack.close()
-            with suppress(FileNotFoundError):
-                os.remove(target_pack_path)
-            with suppress(FileNotFoundError):
-                os.remove(target_index_path)
-            if self.pack_write_bitmaps and refs:
+            # Remove the rejected pack even if closing it fails (a traceback
+            # still holding a view into the mapping makes close() raise).
+            try:
+                final_pack.close()
+            finally:
                 with suppress(FileNotFoundError):
-                    os.remove(pack_base_name + ".bitmap")
+                    os.remove(target_pack_path)
+                with suppress(FileNotFoundError):
+                    os.remove(target_index_path)
+                if self.pack_write_bitmaps and refs:
+                    with suppress(FileNotFoundError):
+                        os.remove(pack_base_name + ".bitmap")
             raise
         # _pack_cache is keyed by the full basename (/path/to/pack-HASH -> pack-HASH)
         self._add_cached_pack(os.path.basename(pack_base_name), final_pack)
@@ -2376,6 +2380,11 @@ class DiskObjectStore(PackBasedObjectStore):
                 # renames this same file, which a live mapping blocks on
                 # Windows. PackData.close() leaves f open for it to finish.
                 with PackData(path, file=f, object_format=self.object_format) as pd:
+                    # Verify the trailing checksum before anything else:
+                    # _complete_pack recomputes and rewrites the trailer, so a
+                    # truncated or damaged pack would otherwise be "repaired"
+                    # over its last bytes instead of being rejected.
+                    pd.check()
                     indexer = PackIndexer.for_pack_data(
                         pd,
                         resolve_ext_ref=self.get_raw,
